@@ -1,12 +1,16 @@
 package checks
 
 import (
+	"context"
 	"fmt"
 	"sort"
 	"strings"
 	"time"
 
 	sdcpb "github.com/sdcio/sdc-protos/sdcpb"
+
+	"github.com/sdcio/data-server/pkg/config"
+	"github.com/sdcio/data-server/pkg/datastore/target"
 
 	"verif/sim"
 	"verif/world"
@@ -34,12 +38,28 @@ func runC12(rc *sim.RunCtx) {
 	if wk == "direct" {
 		wk = ""
 	}
-	w, err := world.New(rc, world.Opts{DisableConcurrency: t.Bool(1, 2), DevKind: wk, CaptureEncodings: devKind == "direct"})
+	// sync validation on: what the device reports is converted to the YANG type of the leaf before it is stored (the setting under
+	// which the running store can be compared with intents at all)
+	syncValidate := true
+	w, err := world.New(rc, world.Opts{DisableConcurrency: t.Bool(1, 2), DevKind: wk, CaptureEncodings: devKind == "direct",
+		Sync: &config.Sync{Validate: syncValidate, Buffer: 16, WriteWorkers: 1, Config: []*config.SyncProtocol{{Name: "cfg", Protocol: "gnmi", Mode: "on-change"}}}})
 	if err != nil {
 		rc.HarnessErr("world: %v", err)
 		return
 	}
 	defer w.Close()
+	// the real Datastore.Sync consumes what the device reports back (echo leg)
+	var syncCh chan *target.SyncUpdate
+	ready := make(chan struct{})
+	w.Dev.SyncFn = func(ctx context.Context, cfg *config.Sync, c chan *target.SyncUpdate) {
+		syncCh = c
+		close(ready)
+		<-ctx.Done()
+	}
+	sctx, scancel := context.WithCancel(w.Ctx)
+	defer scancel()
+	go w.DS.Sync(sctx)
+	<-ready
 	si := w.SI
 	rc.Scenario("device front end: %s", devKind)
 	rc.Probe("dev-" + devKind)
@@ -67,7 +87,7 @@ func runC12(rc *sim.RunCtx) {
 		rc.Probe("form-" + form)
 		rc.SigAdd(fmt.Sprintf("%s|%s|%s", v.leaf, lex, form))
 		rc.NonTrivial()
-		f := map[string]string{"leaf": v.leaf, "type": l.Node.Type.GetType(), "form": form, "value": lex, "device": devKind}
+		f := map[string]string{"leaf": v.leaf, "type": l.Node.Type.GetType(), "form": form, "value": lex, "device": devKind, "echo": "none"}
 		res := ExecTx(rc, w, tx, 5*time.Second)
 		w.NoteTimer(30 * time.Second)
 		if !res.Accepted() {
@@ -194,6 +214,11 @@ func runC12(rc *sim.RunCtx) {
 					rc.Report(sim.Item{Prop: "C12", Clause: "C12.getdata-value", Step: step, Fields: ff, Detail: fmt.Sprintf("GetData(%s) returned %q, supplied datum is %s", enc, g, want)})
 				}
 			}
+		}
+		// echo: the device reports the value back in one of its native forms; the running store must hold the datum
+		// (and the re-submission below must still send nothing: equal data compare equal whatever form they came in)
+		if t.Bool(1, 2) {
+			c12Echo(rc, w, syncCh, l, echoForms[t.Choose(len(echoForms))], same, f, step)
 		}
 		// equal data must not look like a change: verbatim re-submission sends nothing
 		sets0 := len(w.Dev.Sets)
